@@ -638,7 +638,8 @@ open Spec Spec.Cl Spec.Cl.NTerm Parser.CToken
 /-- what the round trip needs from the character classification (facts about Rust's `char`
 methods, checked against Rust for all code points by the harness): the lower-case ASCII letters
 are alphabetic, alphanumeric and not whitespace; the space is whitespace; whitespace is never a
-lambda glyph or a parenthesis (`Cl.ClsOk`) -/
+lambda glyph or a parenthesis, letters are alphanumeric, and whitespace, the parentheses and the
+backslash are not alphanumeric (`Cl.ClsOk`: a name ends at the first non-alphanumeric character) -/
 structure ClsOk10 (cls : CharCls) : Prop where
   lower_alpha : ∀ c, 97 ≤ c → c ≤ 122 → cls.isAlpha c = true
   lower_alnum : ∀ c, 97 ≤ c → c ≤ 122 → cls.isAlnum c = true
@@ -670,11 +671,17 @@ theorem wfName_base26 (hc : ClsOk10 cls) (n : Nat) : WfName cls (base26 n) := by
       exact hc.lower_alnum d this.1 this.2
     · intro d hd
       have := hr d hd
-      refine ⟨hc.lower_not_ws d this.1 this.2, ?_, ?_, ?_, ?_⟩ <;>
-        simp [cLparen, cRparen, cDot, cBackslash] <;> omega
+      simp [cDot]; omega
 
 theorem wfName_varName (hc : ClsOk10 cls) (M d i : Nat) : WfName cls (varName M d i) := by
   unfold varName fname; split <;> exact wfName_base26 hc _
+
+/-- the space and the closing parenthesis are not alphanumeric (`Cl.ClsOk`): they end a name -/
+theorem nameEnd_space (hc : ClsOk10 cls) (s : List Nat) : NameEnd cls (32 :: s) :=
+  C09C.ws_not_alnum hc.ok hc.space_ws
+
+theorem nameEnd_rparen (hc : ClsOk10 cls) (s : List Nat) : NameEnd cls (cRparen :: s) :=
+  C09C.rparen_not_alnum hc.ok
 
 /-- LEXICAL LAYER: the printed string is a rendering of the token printing of the named term; a
 name is always followed by the single space of an application, a closing parenthesis or the end -/
@@ -693,7 +700,7 @@ theorem renders_show (hc : ClsOk10 cls) (lam : Nat) (hl : isLam lam = true) (M :
     have hb : noUD b = true := by simpa [noUD] using h
     by_cases hctx : ctx > 1
     · have := ih hb 0 (d + 1) (CRparen :: rest) (cRparen :: s) (.rparen hr)
-        (Or.inr (Or.inr (Or.inl rfl)))
+        (nameEnd_rparen hc s)
       have := Renders.lparen (Renders.lam hl (wfName_base26 hc d) this)
       simpa [showCla, nameOf, printN, parenIf, parenC, hctx, cLparen, cRparen, cDot] using this
     · have := Renders.lam hl (wfName_base26 hc d) (ih hb 0 (d + 1) rest s hr hs)
@@ -701,12 +708,12 @@ theorem renders_show (hc : ClsOk10 cls) (lam : Nat) (hl : isLam lam = true) (M :
   | app l r ihl ihr =>
     intro ctx d rest s hr hs
     simp only [noUD, Bool.and_eq_true] at h
-    have hsp : NameEnd cls (32 :: (showCla lam M r 3 d ++ s)) := Or.inl hc.space_ws
+    have hsp : NameEnd cls (32 :: (showCla lam M r 3 d ++ s)) := nameEnd_space hc _
     by_cases hctx : ctx = 3
     · subst hctx
       have h2 := ihr h.2 3 d (CRparen :: rest) (cRparen :: s) (.rparen hr)
-        (Or.inr (Or.inr (Or.inl rfl)))
-      have h1 := ihl h.1 2 d _ _ (Renders.ws hc.space_ws h2) (Or.inl hc.space_ws)
+        (nameEnd_rparen hc s)
+      have h1 := ihl h.1 2 d _ _ (Renders.ws hc.space_ws h2) (nameEnd_space hc _)
       have := Renders.lparen h1
       simpa [showCla, nameOf, printN, parenIf, parenC, cLparen, cRparen] using this
     · have h2 := ihr h.2 3 d rest s hr hs
